@@ -1,6 +1,6 @@
 """C01 configuration for ./check (keys: see checks/propcfg.py)."""
 CFG = {
-    "modules": ["VaxisModel.Props.C01"],
+    "modules": ["VaxisModel.Props.C01", "VaxisModel.Props.C01Display"],
     "extractors": ["C07"],
     "drivers": ["C01"],
     "stateful": True,
@@ -13,12 +13,16 @@ CFG = {
     "trusted_base": ["Spec.Display (reference terminal for the renderer vocabulary), Spec.Sgr, Spec.Tokenize (byte lexer; grapheme "
                      "segmentation by longest match over the run's alphabet)",
                      "uniseg/runewidth character widths are parameters (cw) supplied per run by the real library"],
-    "level_text": "Theorems about the executable model of render()/writer.Flush (Model/Render.lean): flush epilogue (pen reset, link "
-                  "closed, sync balanced), cursor state after every frame, and the per-frame display invariant, for all grids, styles, "
-                  "capability sets and widths. The model is tied to vaxis.go/writer.go by token-for-token comparison with the bytes the "
-                  "real code writes, and the property itself is evaluated on the real bytes through Spec.Display.",
-    "level_note": "See notes in DESIGN.md §4 C01: which theorems are proved is listed in Props/C01.lean; the rest of the statement is "
-                  "validated by the oracle on the implementation. Known finding F02 (wide glyph that does not fit) is excluded by hypothesis.",
+    "level_text": "Proved for the executable model of render()/writer.Flush (Model/Render.lean), for all grids, styles, capability sets, width "
+                  "oracles and histories: frame_displays_partial / history_displays (after every frame of any admissible history - refreshes and "
+                  "diff frames in any order, refresh from ANY well-formed prior grid - the reference terminal shows exactly the application's screen "
+                  "and nothing terminal-specific was relied on), flush_epilogue (pen reset, hyperlink closed, sync balanced), cursor_as_requested. "
+                  "The model is tied to vaxis.go/writer.go by token-for-token comparison with the bytes the real code writes on generated "
+                  "frame histories, and the property itself is evaluated on the real bytes through Spec.Display.",
+    "level_note": "Hypotheses of the display theorem (each shown necessary by a decide-checked witness in Witness/C01Display.lean): glyphs fit "
+                  "their row (known finding F02 otherwise), explicit widths are 0/correct/(>1 with OSC 66), a space has width 1, the prior grid is "
+                  "well-formed on refresh, a visible cursor lies inside the screen, no stale hyperlink params. Sixel cells and graphics placements "
+                  "are outside the model (C20). Spec.Display is a model of a standards-conforming terminal, not a physical one.",
     "assumptions": ["terminal width of a raw-printed grapheme equals Vaxis's characterWidth under the same capability set (C07 width method)",
-                    "explicit cell widths given by the application are either 0 (auto) or correct, or any width >= 1 when OSC 66 is available"],
+                    "explicit cell widths given by the application are either 0 (auto) or correct, or any width > 1 when OSC 66 is available"],
 }
